@@ -269,6 +269,14 @@ def arith_cases(prog, alpha, lists=None, taint_mode="abort"):
                 yield lambda op=op, A=A, sc=sc: case_scalar(prog, op, A, sc, True, taint_mode)
         for op, fn in UNARY:
             yield lambda op=op, fn=fn, A=A: case_unary(prog, op, fn, A, taint_mode)
+        # histories: an operand is written in place between two evaluations of the same expression (memoised partial results are seen)
+        if 1 <= len(A) <= 2:
+            for B in L:
+                if len(B) > 2 or (B and not set(A) & set(B)):
+                    continue
+                for op in ("__add__", "minimum", "__mul__"):
+                    for how in ("x[...] = z", "y[...] = z", "x[{dim: item}] = k"):
+                        yield lambda op=op, A=A, B=B, how=how: case_binary_after_write(prog, op, A, B, how, taint_mode)
 
 
 # ====================================================================== sums, casts, shares, cumsum (C07)
@@ -503,6 +511,61 @@ def case_getitem(prog, A, kv, key_style="letter", subset_pos=None, taint_mode="a
     else:
         judge_array(case, w, kind, r, letters, axes, NP.subst(leaf_term("x", A, w), sel_subst(sel, w)))
     common_checks(case, w, [x] + list(subdims.values()), snaps, kind, r, fresh=True)
+    return finish(case, w)
+
+
+def case_getitem_after_copy(prog, A, kv, key_style="letter", taint_mode="abort"):
+    """history: x[key] is read; y = x.copy() gets other values in place; y[key] must be y's entries (and x[key] still x's)"""
+    w = World(prog, taint_mode)
+    case = Case("getitem", "__getitem__", "FlodymArray.__getitem__",
+                {"op": "x[key]; y = x.copy(); y[...] = z; y[key]", "x_dims": list(A), "selector_kinds": list(kv), "key_by": key_style})
+    x = w.array("x", A)
+    z = w.array("z", A)
+    key, letters, axes, sel, subdims = selection(w, A, kv, key_style)
+    k = key if key else Ellipsis
+    k0, _ = run_guarded(lambda: w.it.call_method(x, "__getitem__", k))
+    k1, y = run_guarded(lambda: w.it.call_method(x, "copy"))
+    if k0 != "ok" or k1 != "ok" or not isinstance(y, Obj):
+        return None
+    k2, _ = run_guarded(lambda: w.it.call_method(y, "__setitem__", Ellipsis, z))
+    if k2 != "ok":
+        return None
+    snaps = w.snap(x, y)
+    kind, r = run_guarded(lambda: w.it.call_method(y, "__getitem__", k))
+    judge_array(case, w, kind, r, letters, axes, NP.subst(leaf_term("z", A, w), sel_subst(sel, w)), what="y[key] after y was refilled")
+    kind2, r2 = run_guarded(lambda: w.it.call_method(x, "__getitem__", k))
+    judge_array(case, w, kind2, r2, letters, axes, NP.subst(leaf_term("x", A, w), sel_subst(sel, w)), what="x[key] afterwards")
+    common_checks(case, w, [x, y], snaps, kind, r, fresh=True)
+    return finish(case, w)
+
+
+def case_binary_after_write(prog, op, A, B, how, taint_mode="abort"):
+    """history: x op y has been computed; x (or y) is then written IN PLACE; x op y again follows the present values"""
+    w = World(prog, taint_mode)
+    case = Case("arith", op, f"FlodymArray.{op}", {"op": op, "x_dims": list(A), "y_dims": list(B), "history": f"x {op} y; {how}; x {op} y"})
+    x, y = w.array("x", A), w.array("y", B)
+    k0, _ = run_guarded(lambda: w.it.call_method(x, op, y))
+    if k0 != "ok":
+        return None
+    if how == "x[...] = z":
+        z = w.array("z", A)
+        kw, _ = run_guarded(lambda: w.it.call_method(x, "__setitem__", Ellipsis, z))
+    elif how == "y[...] = z":
+        z = w.array("z", B)
+        kw, _ = run_guarded(lambda: w.it.call_method(y, "__setitem__", Ellipsis, z))
+    elif how == "x[{dim: item}] = k":
+        l0 = min(A)          # the same dimension whatever the storage order (the storage orders of one case are compared by C04)
+        kw, _ = run_guarded(lambda: w.it.call_method(x, "__setitem__", {l0: w.items(l0)[1]}, SymScalar(("sym", "k"))))
+    else:
+        raise AnalysisError(how)
+    if kw != "ok":
+        return None
+    X, Y = x.f["values"].term, y.f["values"].term       # what the arrays hold now (the write itself is the business of C05)
+    snaps = w.snap(x, y)
+    kind, r = run_guarded(lambda: w.it.call_method(x, op, y))
+    exp = arith_oracle(op, X, Y, A, B, w)
+    judge_array(case, w, kind, r, exp[1], full_axes(w, exp[1]), exp[2], what="second result")
+    common_checks(case, w, [x, y], snaps, kind, r, fresh=True)
     return finish(case, w)
 
 
@@ -875,6 +938,10 @@ def misc_index_cases(prog, taint_mode="abort"):
             yield lambda A=A, kv=kv, l=l: case_getitem(prog, A, kv, "letter", {l: "all"}, "concrete")
             yield lambda A=A, kv=kv, l=l: case_setitem(prog, A, kv, "array-same", "letter", {l: "all"}, "concrete")
     for A in [("a",), ("a", "b"), ("b", "a", "c")]:
+        for kv in itertools.product(("absent", "single", "subset"), repeat=len(A)):
+            if all(k == "absent" for k in kv):
+                continue
+            yield lambda A=A, kv=kv: case_getitem_after_copy(prog, A, kv, "letter", taint_mode)
         for how in ("slice", "slice-in-tuple", "unknown-item", "unknown-item-in-dict", "unknown-dim-in-dict", "ambiguous-item",
                     "non-subset-dimension", "subset-dimension-of-other-dim"):
             if how == "ambiguous-item" and len(A) < 2:
